@@ -17,7 +17,7 @@ import vlib
 
 THEOREMS = ["C16_race_free", "C16_protected", "C16_unlocked_read_races", "C16_atomic_step", "C16_atomic", "C16_atomic_meaning", "C16_pfx_calls",
             "C16_translation_complete", "C16_lifecycle_balanced", "C16_instance_decided", "C16_instance_outside_known",
-            "C16_admitted_is", "C16_instance_race_free", "C16_instance_all_iterations"]
+            "C16_admitted_is", "C16_instance_race_free", "C16_instance_all_iterations", "C16_one_section_per_operation", "C16_helpers_lock_free"]
 
 KEY_FOR_EACH = "for-each-root-read-before-lock"
 KEY_SPKI_DIFF = "spki-notify-diff-unlocked-traversal"
@@ -106,6 +106,16 @@ def gen_script(rnd, nops=70, root_toggle=True):
             if c:
                 r = rnd.choice(c)
                 ops += [fmt("a", r), fmt("r", r)]
+            continue
+        if x < 0.4 and rnd.random() < 0.2 and (live or keys):
+            # removal by source: several records of one source go in one call (nodes emptied and pulled up inside)
+            srcid = rnd.choice([1, 2])
+            if rnd.random() < 0.7 or not keys:
+                live = [r for r in live if r[5] != srcid]
+                ops.append("op sp %d" % srcid)
+            else:
+                keys = [k for k in keys if k[2] != srcid]
+                ops.append("op sk %d" % srcid)
             continue
         if x < 0.4:
             c = [r for r in pool if r not in live]
